@@ -30,6 +30,8 @@ def classify(scn, line):
         return "file-load-%s-%s" % ("panic" if e.get("panic") else "error", "+".join(shape) + "-field-lines")
     if e.get("panic"):
         return "authenticate-panic"
+    if e["op"] == "ids":
+        return "session-identifiers-not-distinct"
     table = {x["u"]: x for x in scn[0]["table"]}
     should = e["u"] in table and table[e["u"]]["p"] == e["p"]
     if should and not e["ok"]:
@@ -131,7 +133,7 @@ def check(run):
         idx = scn[0]["scn"] - 1
         v.add(sig, "credential store with file lines %s (order %s): %s is not what the configured table implies"
               % (json.dumps([[x["u"], "3-field" if x["m"] else "2-field"] for x in scn[0]["table"]]), scn[0].get("order"), json.dumps(e)),
-              {"kind": "auth", "scenario": dict(scns[idx], queries=[{"u": e.get("u", ""), "p": e.get("p", "")}] if e["op"] == "auth" else []),
+              {"kind": "auth", "scenario": scns[idx] if e["op"] == "ids" else dict(scns[idx], queries=[{"u": e.get("u", ""), "p": e.get("p", "")}] if e["op"] == "auth" else []),
                "trace": [scn[0], e]})
     # ---- broker level: CONNECT against the real file handler; CONNACK code, tenant, and nothing created after a refusal
     bscns = []
